@@ -125,6 +125,9 @@ package usermanager
 //@   loop 0 step deductedDown: bucket != nil && inInt64(int(oldDown) - int(status.DownUsage)) ==> int(newDown) == int(oldDown) - int(status.DownUsage)
 //@   loop 0 step twoWrites: bucket != nil ==> ghostget("dbputs", 0) == old(ghostget("dbputs", 0)) + 2
 //@   loop 0 step nobodyElse: forall b string :: b != bkt(status.UID) ==> dbRecSame(b)
+//@   # C16: a user whose upload OR download credit has reached zero (or less) gets a verdict in this round
+//@   loop 0 step cutOffWhenExhausted: bucket != nil && (newUp <= 0 || newDown <= 0) ==> len(responses) > old(len(responses))
+//@   loop 0 step unknownUserGetsVerdict: bucket == nil ==> len(responses) > old(len(responses))
 //@ func (*localManager).UploadStatus
 //@   repinv open: manager != nil && manager.db != nil && dbWF()
 //@   requires manager != nil && manager.db != nil && dbWF()
